@@ -383,6 +383,59 @@ def check_site(chk, repo, maps, call, prim):
         ob("value", have, vs)
 
 
+def cpu_count_exec(chk, repo, ci, cm, rule):
+    bad = []
+    rows = 0
+    for mask in ("0", "0-3", "0-7\n", "0,2-5", "0-1,3,5-6", "0,2,4,6",
+                 "1-2,8-11,13\n", "0-127", "0-3,8-11"):
+        want = 0
+        for part in mask.strip().split(","):
+            a, _, b = part.partition("-")
+            want += int(b or a) - int(a) + 1
+        opened = []
+
+        def open_(path, *a, _m=mask, _o=opened, **k):
+            _o.append(path)
+            f = Obj(None, {"read": ("hook", lambda *a_: _m),
+                           "readline": ("hook", lambda *a_: _m),
+                           "close": ("hook", lambda: None)})
+            f.fields["__enter__"] = ("hook", lambda _f=f: _f)
+            f.fields["__exit__"] = ("hook", lambda *a_: None)
+            return f
+        made = []
+        me = Obj(ci, {"size": 24, "name": "m"})
+        ev = Evaluator(repo, cm._module, ci, funcs={
+            "open": ("hook", open_),
+            "create_map": ("hook", lambda *a, **k: made.append(a) or 11),
+            "cpu_count": ("hook", lambda *a: 2),
+            "os": Obj(None, {"cpu_count": ("hook", lambda *a: 2),
+                             "sched_getaffinity": ("hook", lambda *a: {0}),
+                             "process_cpu_count": ("hook", lambda *a: 2)})})
+        ev.ctor_hooks["ebpfcat.arraymap.PerCPUReader"] = \
+            lambda ev_, ci_, args, kw: Obj(None, {"args": tuple(args)})
+        try:
+            ev.call_function(cm, [me, Obj(None, {}), None], cls=ci)
+        except (Unknown, Raised):
+            return False        # not executable: the definitions are read
+        rows += 1
+        got = me.fields.get("cpu_no")
+        if not any("cpu/possible" in str(p_) for p_ in opened):
+            bad.append(f"the CPU count does not come from "
+                       f"/sys/devices/system/cpu/possible (opened: "
+                       f"{opened}): the kernel copies one value per "
+                       f"*possible* CPU; online or affinity counts can be "
+                       f"smaller")
+            break
+        if got != want:
+            bad.append(f"mask {mask.strip()!r}: cpu_no = {got!r}, the mask "
+                       f"names {want} CPUs")
+    chk.ob(rule, ci.qualname + ".create_map", f"cpu_no is the number of CPUs "
+           f"the kernel's possible mask names ({rows} masks by abstract "
+           f"execution)", not bad, cm, "; ".join(bad[:2]) or
+           "single CPUs, ranges and mixtures")
+    return True
+
+
 # ----------------------------------------------------------------- R10.3
 def percpu(chk, repo):
     rule = "R10.3"
@@ -432,7 +485,12 @@ def percpu(chk, repo):
     chk.ob(rule, am.qualname + ".collect",
            "size rounded up to a multiple of 8", ok, rets[0],
            why + "; tabulated for 0..129 against ceil8")
-    # (b) cpu_no comes from the possible CPUs
+    # (b) cpu_no comes from the possible CPUs: create_map() by abstract
+    # execution, `open` being a stand-in that hands out CPU masks of every
+    # shape the kernel prints
+    cm = ci.methods.get("create_map")
+    if cm is not None and cpu_count_exec(chk, repo, ci, cm, rule):
+        return
     defs = []
     for c in [ci] + [x for x in repo.classes.values()
                      if x.module.name == "ebpfcat.arraymap"]:
